@@ -6,6 +6,23 @@ PENDING = "check not built yet in this round (specification and driver in progre
 
 # id -> (level text, level note, technique, design ref)
 BUILT = {
+ "C16": ("KPerSample.tla transcribes the policy filter as select_next_plate calls it; TLC explores every screen of <=5/6 "
+         "single-sample plates over 3 samples (any plate-id/sample interleaving, any observed subset), k in 1..3 and every "
+         "selection order the policy admits, checking the five clauses of C16 in every state; every reachable state of the "
+         "4-plate scope is rebuilt as a real Screen + batch and filter_eligible_plates / select_next_plate must agree with "
+         "Allowed (with an attractive lower score on forbidden plates); random larger real walks are validated by "
+         "TraceKPerSample.",
+         "the recording subclass of the policy only logs; scores are small integers.",
+         "TLA+ transcription + TLC exhaustive; spec->code replay of every reachable state; code->spec trace validation",
+         "5/C16"),
+ "C17": ("Sampling.tla is the small-step machine of sampling.sample (reset, set_rng, burn-in loop, thinning loop, record; "
+         "variational branch); TLC checks the schedule for all b<=5/9, t<=4/6, n<=4/6; each explored configuration is run "
+         "through the real function with a counting model and the full event log (every reset/set_rng/step/get_state) is "
+         "replayed through the machine's actions by TraceSampling, as are random larger configurations; generator identity "
+         "per (seed, n_chains, chain_index) is decided on stream tokens incl. repeated calls in one process.",
+         "stream non-overlap witnessed on a finite prefix; numpy SeedSequence.spawn trusted beyond it.",
+         "TLA+ state machine + TLC exhaustive; trace validation of instrumented real runs (counting model through the public API)",
+         "5/C17"),
  "C01": ("Encoding.tla transcribes both id encoders over tokens (column stacking, sort, control detection, cumulative "
          "renumbering, left merge, mapping validation); TLC enumerates every input over 3 names x 4 dose classes "
          "(arity 1..3, every control name) incl. re-encoding of every row subset with the produced mapping and with one "
